@@ -6,7 +6,7 @@ EXTENDS MC_EvalBase
 CondExprs == { KwL("null"), KwL("true"), KwL("false"), N(0), N(1), ND(FALSE, <<5>>, -1), ND(FALSE, <<1>>, -400), ND(FALSE, <<1>>, 400), P(<<"Bin", "*", ND(FALSE, <<1>>, -200), ND(FALSE, <<1>>, -200)>>), S(<<>>), S(<<48>>), S(<<97>>),
                <<"Arr", <<>>>>, <<"Arr", <<N(0)>>>>,
                Id("nan"), Id("pinf"), Id("ninf"), Id("negzero"), Id("zerof"), Id("int0"), Id("int5"), Id("s0"), Id("sa"),
-               Id("m"), Id("mt"), Id("sl"), Id("np"), Id("nl"), Id("rec"), Id("undefined"), Id("bt"), Id("bf"),
+               Id("m"), Id("mt"), Id("sl"), Id("np"), Id("nl"), Id("rec"), Id("undefined"), Id("bt"), Id("bf"), Id("t0"), Id("t1"), Id("st"), Id("ss0"),
                SelE(Id("tm"), "z"), SelE(Id("tm"), "o"), SelE(Id("m"), "missing") }
 BranchExprs == { N(1), N(2), S(<<98>>), KwL("null"), KwL("false"), Asg("$x", N(7)), Call1("rec", N(1)), Call1("rec", N(2)), Id("m") }
 BranchExprsB == { N(1), N(2), S(<<98>>), KwL("null"), KwL("false"), P(Asg("$x", N(7))), Call1("rec", N(1)), Id("m"), N(0) }
